@@ -284,6 +284,15 @@ class StreamIterSel(StreamGet):
     def post(self, ex, inp, out):
         if out.kind == "ret" and isinstance(out.value, SeqIter):
             ex.ctx.oblige("post.iterator-starts-at-the-first-selected-box", veq(ex.ctx, out.value.pos, 0), "P")
+            # pool contract (CPython, observed): an imap over an EMPTY task list whose pool is referenced by nothing but the
+            # returned iterator never completes (the pool is finalised from its own task-handler thread), so next() blocks
+            # for ever instead of raising StopIteration: an iterator that is to yield nothing must not be built that way
+            pool = getattr(out.value, "pool", None)
+            if self.prop == "C15" and pool is not None and getattr(pool, "created_here", False):
+                seq = out.value.seq
+                ln = seq.length if isinstance(seq, SymSeq) else len(seq)
+                ex.ctx.oblige("post.empty-selection-terminates", to_z3(ln) > 0, "P",
+                              note="imap over an empty task list on a pool only the iterator references: next() never returns")
             out.value = out.value.seq        # what the iterator yields, in order
         StreamGet.post(self, ex, inp, out)
 
